@@ -27,6 +27,7 @@ import (
 	"os"
 	"os/exec"
 	"path/filepath"
+	"runtime"
 	"sort"
 	"strconv"
 	"strings"
@@ -110,7 +111,122 @@ func nl(xs []int64) string {
 	return "[" + strings.Join(s, ";") + "]"
 }
 
+// ---- process-crash enumeration of an upgrade (driven by vlib/crash.py):
+//
+//	legdrive prep <seed> <bits> <dir> <want.json>            builds a legacy store in <dir>, writes the expected contents
+//	legdrive upgrade <dir> <bits> <imax> <pmax>              OpenStore (the conversion) + Close: the child that is killed
+//	legdrive verify <dir> <bits> <imax> <pmax> <want.json>   opens what the crash left (completing the conversion), compares every key,
+//	                                                         closes, reopens, compares again; prints OK or BAD <what>
+func prep(seed int64, bits uint8, dir, wantPath string) {
+	rng := rand.New(rand.NewSource(seed))
+	s, err := open(context.Background(), dir, bits, 1<<30, 1<<30)
+	must(err)
+	nk := 5 + rng.Intn(8)
+	var keys [][]byte
+	for i := 0; i < nk; i++ {
+		dl := 4 + rng.Intn(4)
+		d := make([]byte, dl)
+		for j := range d {
+			d[j] = byte(1 + rng.Intn(2))
+		}
+		d[0] = byte(5 + rng.Intn(3))
+		d[dl-1] = byte(10 + i)
+		keys = append(keys, append([]byte{0x12, byte(dl)}, d...))
+	}
+	want := map[string]string{}
+	for i, n := 0, 20+rng.Intn(30); i < n; i++ {
+		k := keys[rng.Intn(nk)]
+		switch r := rng.Intn(10); {
+		case r < 7:
+			v := make([]byte, 4+rng.Intn(24))
+			for j := range v {
+				v[j] = byte('a' + rng.Intn(3))
+			}
+			if s.Put(k, v) == nil {
+				want[fmt.Sprintf("%x", k)] = fmt.Sprintf("%x", v)
+			}
+		case r < 8:
+			if rm, _ := s.Remove(k); rm {
+				delete(want, fmt.Sprintf("%x", k))
+			}
+		default:
+			s.Flush()
+		}
+	}
+	for _, k := range keys {
+		if _, ok := want[fmt.Sprintf("%x", k)]; !ok {
+			want[fmt.Sprintf("%x", k)] = "absent"
+		}
+	}
+	s.Flush()
+	must(s.Close())
+	idx, _ := os.ReadFile(filepath.Join(dir, "i.0"))
+	must(os.WriteFile(filepath.Join(dir, "i"), append([]byte{2, 0, 0, 0, 2, bits}, idx...), 0o644))
+	must(os.Rename(filepath.Join(dir, "d.0"), filepath.Join(dir, "d")))
+	for _, n := range []string{"i.0", "i.info", "d.info", "i.buckets"} {
+		os.Remove(filepath.Join(dir, n))
+	}
+	data, _ := json.Marshal(want)
+	must(os.WriteFile(wantPath, data, 0o644))
+}
+
+func verify(dir string, bits uint8, imax, pmax uint32, wantPath string) {
+	data, err := os.ReadFile(wantPath)
+	must(err)
+	want := map[string]string{}
+	must(json.Unmarshal(data, &want))
+	check := func(when string) {
+		s, err := open(context.Background(), dir, bits, imax, pmax)
+		if err != nil {
+			fmt.Printf("BAD %s: open fails: %v\n", when, err)
+			os.Exit(1)
+		}
+		defer s.Close()
+		var ks []string
+		for k := range want {
+			ks = append(ks, k)
+		}
+		sort.Strings(ks)
+		for _, kh := range ks {
+			var k []byte
+			fmt.Sscanf(kh, "%x", &k)
+			v, ok, err := s.Get(k)
+			got := "absent"
+			if err != nil {
+				got = "ERR:" + err.Error()
+			} else if ok {
+				got = fmt.Sprintf("%x", v)
+			}
+			if got != want[kh] {
+				fmt.Printf("BAD %s: Get(%s) = %s, the legacy store held %s\n", when, kh, got, want[kh])
+				os.Exit(1)
+			}
+		}
+	}
+	check("opening what the interrupted conversion left")
+	check("reopening the converted store")
+	fmt.Println("OK")
+}
+
 func main() {
+	if len(os.Args) > 1 {
+		atoi := func(s string) int { n, _ := strconv.Atoi(s); return n }
+		switch os.Args[1] {
+		case "prep":
+			seed, _ := strconv.ParseInt(os.Args[2], 10, 64)
+			prep(seed, uint8(atoi(os.Args[3])), os.Args[4], os.Args[5])
+			return
+		case "upgrade":
+			runtime.LockOSThread() // every file-system call of the conversion comes from one thread (the crash enumeration counts per thread)
+			s, err := open(context.Background(), os.Args[2], uint8(atoi(os.Args[3])), uint32(atoi(os.Args[4])), uint32(atoi(os.Args[5])))
+			must(err)
+			must(s.Close())
+			return
+		case "verify":
+			verify(os.Args[2], uint8(atoi(os.Args[3])), uint32(atoi(os.Args[4])), uint32(atoi(os.Args[5])), os.Args[6])
+			return
+		}
+	}
 	in, err := os.Open(os.Args[1])
 	if err != nil {
 		panic(err)
